@@ -290,6 +290,30 @@ func RemProp(ctx *Context, s State, id string, prop string) (bool, error) {
 	return s.Rem(ctx, genPropId(id, prop))
 }
 
+// dependsOn reports whether the given fact literally names the given
+// id in its 'deleteWith' property.
+//
+// Searching for {"deleteWith":[id]} finds a superset of the dependents
+// when the id looks like a variable (because the id then matches
+// anything), so callers use this function to check what they found.
+func dependsOn(fact map[string]interface{}, id string) bool {
+	switch vv := fact[KW_DeleteWith].(type) {
+	case []interface{}:
+		for _, x := range vv {
+			if s, ok := x.(string); ok && s == id {
+				return true
+			}
+		}
+	case []string:
+		for _, s := range vv {
+			if s == id {
+				return true
+			}
+		}
+	}
+	return false
+}
+
 func Expire(ctx *Context, s State, id string, fact map[string]interface{}, now int64) (bool, error) {
 	expired, err := checkExpiration(ctx, fact, now)
 	if err != nil {
